@@ -89,6 +89,17 @@ class Guards:
         self.all = dict(self.nested)
         self.all.update(self.top)
         self._sg = {}
+        # a lookup inlined into the function that acts on the decision (it
+        # registers / applies the cached record itself) is not a predicate
+        # any more: other rules look inside it instead of treating it as an
+        # opaque answer
+        acts = {R.cache + '.use_cached_operation',
+                R.builder + '._apply_cached_suboperations'}
+        self.acting = {
+            d for d in self.top if any(
+                isinstance(g, Func) and g.qualname in acts
+                for c in prog.calls_in(d) for g in prog.resolve_call(c, d))}
+        self.opaque = (set(self.all) - self.acting) | {self.replay}
 
     def _isinstance_class(self, test):
         for c in ast.walk(test):
@@ -101,7 +112,7 @@ class Guards:
 
     def graph(self, d):
         if d.qualname not in self._sg:
-            stop = set(self.all) | {self.replay}
+            stop = (set(self.all) | {self.replay}) - {d}
             R = self.ctx.R
 
             prog = self.ctx.prog
@@ -370,6 +381,21 @@ class Guards:
         return req
 
     def positive_exits(self, sg):
+        """Where the decider has answered "reuse": its True / value exits -
+        or, when the decision is taken inline in the function that also acts
+        on it (the lookup inlined into its caller), the first action on the
+        cached record: registering it in the new cache or applying it."""
+        C = self.ctx.R.cache
+        acts = {C + '.use_cached_operation'}
+        try:
+            from .apply_rules import apply_routine
+            acts.add(apply_routine(self.ctx).qualname)
+        except AnalysisError:
+            pass
+        targets = {x.id for x in sg.nodes
+                   if any(Q.is_call(x, a) for a in acts)}
+        if targets:
+            return targets
         return {sg.exits['T'], sg.exits['N']}
 
     def check_requirement(self, d, matchers):
